@@ -549,6 +549,8 @@ func newGlobal() *Global {
 		Global:     newLTable(0, 64),
 		builtinMts: make(map[int]LValue),
 		tempFiles:  make([]*os.File, 0, 10),
+
+		loopDetection: &LUserData{},
 	}
 }
 
